@@ -1,0 +1,23 @@
+//go:build verif
+
+// Machine-checked contract of Join (C03, C07): what Unsubscribe re-raises after every teardown has run is nil exactly
+// when no teardown failed, and otherwise a value that keeps every failure, in order. Comments only.
+
+package xerrors
+
+//@ func Join
+//@   props C03 C07
+//@   binds errs
+//@   scope complit errs varargs
+//@   ensures [nil-exactly-when-nothing-failed|C03,C07] (result == nil) == forall(j, 0, len(errs), errs[j] == nil)
+
+//@ loop Join#0
+//@   invariant 0 <= it && it <= len(ranged)
+//@   invariant n >= 0 && n <= it
+//@   invariant (n == 0) == forall(j, 0, it, ranged[j] == nil)
+
+//@ loop Join#1
+//@   invariant 0 <= it && it <= len(ranged)
+
+//@ loop Join#2
+//@   invariant 0 <= it && it <= len(ranged)
